@@ -8,7 +8,9 @@ namespace {
 struct St {
     nix::File file;
     nix::Block block;
-    nix::Dimension dim;
+    nix::Dimension dim;        // KEPT for the whole case: every conversion goes through this one handle
+    nix::DataArray arr;        // the array it belongs to
+    bool alias = false;
     int n = 0;
     std::string path;
 } st;
@@ -21,7 +23,7 @@ void ensureFile() {
     st.n = 0;
 }
 void resetAll() {
-    st.dim = nix::Dimension();
+    st.dim = nix::Dimension(); st.arr = nix::DataArray(); st.alias = false;
     st.block = nix::Block();
     if (st.file) { st.file.close(); st.file = nix::File(); std::remove(st.path.c_str()); }
 }
@@ -72,7 +74,35 @@ DRV_OP(axis_range) {
         for (auto &x : tokList(a[1])) t.push_back(tokF64(x));
         nix::RangeDimension d = da.appendRangeDimension(t);
         if (a[2] != "~") d.unit(unhexStr(a[2]));
-        st.dim = da.getDimension(1);
+        st.dim = da.getDimension(1); st.arr = da; st.alias = false;
+        (void) st.dim.asRangeDimension().ticks();        // asked once: a handle that remembers has something to remember
+        return std::string();
+    });
+}
+// axis_alias [ticks] : an array whose data are the ticks, described by an alias range dimension
+DRV_OP(axis_alias) {
+    if (a.size() != 2) throw ProtoError("axis_alias arity");
+    return guarded([&]() {
+        ensureFile();
+        std::vector<double> t;
+        for (auto &x : tokList(a[1])) t.push_back(tokF64(x));
+        nix::DataArray da = st.block.createDataArray("a" + std::to_string(st.n++), "t", nix::DataType::Double, nix::NDSize({t.size()}));
+        da.setData(t);
+        da.appendAliasRangeDimension();
+        st.dim = da.getDimension(1); st.arr = da; st.alias = true;
+        (void) st.dim.asRangeDimension().ticks();
+        return std::string();
+    });
+}
+// axis_reticks [ticks] : the ticks of the current range axis are replaced by ANOTHER route than the kept handle — a second handle of
+// the dimension, or (alias) the data of the array; the kept handle is not told
+DRV_OP(axis_reticks) {
+    if (a.size() != 2) throw ProtoError("axis_reticks arity");
+    return guarded([&]() {
+        std::vector<double> t;
+        for (auto &x : tokList(a[1])) t.push_back(tokF64(x));
+        if (st.alias) st.arr.setData(t);
+        else st.arr.getDimension(1).asRangeDimension().ticks(t);
         return std::string();
     });
 }
